@@ -29,6 +29,7 @@ type FuncV struct { // function literal or method value
 	lit *ast.FuncLit
 	fn  *types.Func
 	recv Value
+	pkg *pkgCtx // package the literal was written in
 }
 type LocV struct{ addr T } // variable that lives in the heap (address taken)
 
@@ -94,6 +95,17 @@ func (s *State) clone() *State {
 }
 
 type Engine struct {
+	// goal-directed instantiation: positive universal quantifiers of a goal clause are replaced by fresh constants
+	// (skolemGoal); the same clause, assumed earlier (loop invariant at the head), is then instantiated at them
+	pol        int
+	skolemGoal bool
+	skolemOf   map[*ast.FuncLit][]T
+	instWith   map[*ast.FuncLit][]T
+	invHead    *State
+	exprPcParent map[string]string // short-circuit path conditions -> the path condition they refine
+	sawHavoc bool // a loop head forgot the heap somewhere in this function
+	strOfMemo map[string]strMemo
+	quantSide [][]T // typed-memory side facts of the open quantifiers
 	retTag string
 	prog   *Program
 	defs   []Def
@@ -171,7 +183,7 @@ func newEngine(p *Program) *Engine {
 }
 
 func newEngine0(p *Program) *Engine {
-	e := &Engine{epochLoopFrames: map[int][]*frame{}, allocTerms: map[string]int{}, epochFrames: map[int]bool{}, strLens: map[string]int64{}, heapSyms: map[string]T{}, heapKeySeen: map[string]bool{}, structIDs: map[*types.Struct]string{}, prog: p, declared: map[string]bool{}, typeIDs: map[string]int{}, strLits: map[string]T{},
+	e := &Engine{exprPcParent: map[string]string{}, epochLoopFrames: map[int][]*frame{}, allocTerms: map[string]int{}, epochFrames: map[int]bool{}, strLens: map[string]int64{}, heapSyms: map[string]T{}, heapKeySeen: map[string]bool{}, structIDs: map[*types.Struct]string{}, prog: p, declared: map[string]bool{}, typeIDs: map[string]int{}, strLits: map[string]T{},
 		globals: map[types.Object]Value{}, assumptions: map[string]bool{}, funcsUnder: map[string]bool{}, uf: map[string]string{}}
 	return e
 }
@@ -240,6 +252,11 @@ func (e *Engine) assume(st *State, fact T, origin string) {
 
 func (e *Engine) assumeQ(st *State, fact T, origin string) {
 	if e.quant > 0 {
+		// inside a quantifier body: the typed-memory fact about a term that mentions the bound variable is
+		// recorded and assumed, universally quantified, when the quantifier is closed
+		if n := len(e.quantSide); n > 0 && fact.s != "true" {
+			e.quantSide[n-1] = append(e.quantSide[n-1], fact)
+		}
 		return
 	}
 	e.assume(st, fact, origin)
@@ -354,7 +371,11 @@ func (e *Engine) oblige(st *State, kind, slug string, goal T, pos token.Pos, cl 
 	o := &Oblig{name: name, kind: kind, fn: e.fnName, props: props, goal: Implies(st.pc, goal),
 		ndefs: len(e.defs), nfacts: len(e.facts), pos: ps, clause: cl}
 	e.obligs = append(e.obligs, o)
+	prev := st.pc
 	st.pc = e.name("pc", And(st.pc, goal))
+	if st.pc.s != prev.s {
+		e.exprPcParent[st.pc.s] = prev.s // same program path, strengthened by a proved condition
+	}
 }
 
 func (e *Engine) abstract(reason string) {
@@ -759,7 +780,7 @@ func (e *Engine) checkMapWrite(st *State, ref T, what string) {
 // memory that already existed at entry (well-formed entry heap: stored references are allocated).
 func (e *Engine) oldStaysOld(st *State, loc T, isBlock bool, ref T) {
 	f := e.frame
-	if f == nil || f.all || e.quant > 0 || e.specMode > 0 && false {
+	if f == nil || f.all {
 		return
 	}
 	outside := []T{Lt(loc, f.bound)}
@@ -772,7 +793,7 @@ func (e *Engine) oldStaysOld(st *State, loc T, isBlock bool, ref T) {
 			outside = append(outside, Or(Lt(loc, c.lo), Ge(loc, c.hi)))
 		}
 	}
-	e.assume(st, Implies(And(outside...), Lt(ref, f.bound)), "typed memory: references stored in pre-existing memory point to pre-existing memory")
+	e.assumeQ(st, Implies(And(outside...), Lt(ref, f.bound)), "typed memory: references stored in pre-existing memory point to pre-existing memory")
 }
 
 // assumeFrameAtHavoc: after forgetting the heap inside a function (loop head), memory outside the frame
@@ -808,12 +829,18 @@ func (e *Engine) frameInstance(st *State, key string, addr T, n int) {
 		fs = append(fs, e.frame)
 	}
 	fs = append(fs, e.epochLoopFrames[st.epoch]...)
-	if len(fs) == 0 {
-		return
-	}
 	sym, ok := e.heapSyms[fmt.Sprintf("%s@%d", key, st.epoch)]
-	if !ok {
-		return
+	if !ok || len(fs) == 0 {
+		// a heap merged from several paths (some of which forgot it at a loop head): every write in the function
+		// is checked against the function frame, so cells outside it hold their entry contents in every state
+		cur, has := st.H[key]
+		if !has || e.frame == nil || e.frame.all || e.frame.entry == nil || !e.sawHavoc {
+			return
+		}
+		if old, has0 := e.frame.entry.H[key]; has0 && old.s == cur.s {
+			return
+		}
+		sym, fs = cur, []*frame{e.frame}
 	}
 	for _, f := range fs {
 		if f == nil || f.all || f.entry == nil {
